@@ -698,4 +698,230 @@ def specRun : List (Spec κ ν) → List (Op κ ν) → List (Spec κ ν) × Lis
     let (ms'', os) := specRun ms' ops
     (ms'', o :: os)
 
+/-! ### argument objects that live in the table itself (`set` / `rem` / `mem` / `get`)
+
+    What a user writes when updating or pruning while walking: `foreach (k in t) { set(t, k, get(t, k2)); }`,
+    `rem(t, k)` / `mem(t, k)` with the key object iteration handed out, `set(t, newkey, get(t, k))` (growth with a value
+    object of the old array as the source).  The argument objects then lie in the slot array the call is about to change.
+
+    The C code reads an argument object only BEFORE its first write to the slot array:
+      * `Table_Set_Move` (Table.c:327-397): `cast(key)`, `cast(val)`, `hash(key)`, then `assign` of both into sspace0
+        (l.364-366); the `while (true)` loop reads and writes `data`, sspace0, sspace1 only, and `Table_Resize_More` /
+        `Table_Rehash` afterwards move records, never the arguments.  (`Table_Set` on an `nslots = 0` table rehashes first —
+        a table without slots holds no object, so an argument object inside it does not exist.)
+      * `Table_Rem` (l.470-519): `cast(key)`, `hash(key)`, `eq(Table_Key(t, i), key)` while probing — no write yet —, and
+        after the match (`destruct`, `memset`, back shift, `Table_Resize_Less`) `key` is not read again; the KeyError
+        message reads it when nothing was written.
+      * `Table_Mem` writes nothing; `Table_Get` has its address test (`getArg` above).
+    Hence an operation given such objects IS the operation on the values they hold when the call starts: `readKey` /
+    `readVal` below take the values out of the record (through the cast: a value object read as a key must be of the key
+    type and vice versa), and the value-level `set` / `rem` / `mem` run on them.  That copy-first order is what the model
+    states here; harness ops `seta / rema / mema / geta` hand the real Table exactly these objects (under ASan: a read of
+    an argument after `destruct` or after the old array is freed would be a use-after-free). -/
+
+/-- an argument object, named by what it is rather than where it lies -/
+inductive Ref (κ α : Type) where
+  /-- an object outside the table's slot array holding `a` -/
+  | obj (a : α)
+  /-- the key object the table stores for `k` (what `foreach (p in t)` hands out) -/
+  | keyOf (k : κ)
+  /-- the value object of the record of `k` (what `get(t, k)` returns) -/
+  | valOf (k : κ)
+deriving Repr
+
+/-- where the object lies (`none`: the table stores nothing for `k` — there is no such object) -/
+def Ref.locate {α : Type} (hash : κ → Nat) (t : Tab κ ν) : Ref κ α → Except Fail (Option (KeyArg α))
+  | .obj a => .ok (some (.obj a))
+  | .keyOf k =>
+    match find hash t k with
+    | .error f => .error f
+    | .ok none => .ok none
+    | .ok (some i) => .ok (some (.inSlot i.val .key))
+  | .valOf k =>
+    match find hash t k with
+    | .error f => .error f
+    | .ok none => .ok none
+    | .ok (some i) => .ok (some (.inSlot i.val .val))
+
+/-- the VALUE a value argument stands for, as `Table_Set_Move` reads it (`cast(val, t->vtype)`; `asVal`: a key object read
+    as a value): the counterpart of `KeyArg.denote` -/
+def KeyArg.denoteVal (asVal : κ → Option ν) (t : Tab κ ν) : KeyArg ν → Option (Except Exc ν)
+  | .obj v => some (.ok v)
+  | .inSlot i part =>
+    if h : i < t.n then
+      match t.slots[i], part with
+      | some e, .val => some (.ok e.val)
+      | some e, .key =>
+        match asVal e.key with
+        | none => some (.error .ValueError)
+        | some v => some (.ok v)
+      | none, _ => some (.error .ValueError)
+    else none
+
+/-- what a key argument holds when the call starts: `none` = no such object, `some (.error e)` = the cast raises `e` -/
+def Ref.readKey (hash : κ → Nat) (asKey : ν → Option κ) (t : Tab κ ν) (r : Ref κ κ) : Except Fail (Option (Except Exc κ)) :=
+  match r.locate hash t with
+  | .error f => .error f
+  | .ok none => .ok none
+  | .ok (some a) => .ok (a.denote asKey t)
+
+def Ref.readVal (hash : κ → Nat) (asVal : κ → Option ν) (t : Tab κ ν) (r : Ref κ ν) : Except Fail (Option (Except Exc ν)) :=
+  match r.locate hash t with
+  | .error f => .error f
+  | .ok none => .ok none
+  | .ok (some a) => .ok (a.denoteVal asVal t)
+
+/-- the two casts at the top of `Table_Set_Move`, key first: the pair of values, or what is observed instead
+    (`badOp`: an argument names no object — nothing is called) -/
+def setArgs (rk : Option (Except Exc κ)) (rv : Option (Except Exc ν)) : Except (Obs κ ν) (κ × ν) :=
+  match rk, rv with
+  | none, _ => .error .badOp
+  | some _, none => .error .badOp
+  | some (.error e), some _ => .error (.raised e)
+  | some (.ok _), some (.error e) => .error (.raised e)
+  | some (.ok k), some (.ok v) => .ok (k, v)
+
+/-- the cast at the top of `Table_Rem` / `Table_Mem` / (after its address test) `Table_Get` -/
+def keyArg1 (rk : Option (Except Exc κ)) : Except (Obs κ ν) κ :=
+  match rk with
+  | none => .error .badOp
+  | some (.error e) => .error (.raised e)
+  | some (.ok k) => .ok k
+
+/-- operations whose argument objects may live in the table they are applied to -/
+inductive AOp (κ ν : Type) where
+  | plain (op : Op κ ν)
+  | setA (t : Nat) (k : Ref κ κ) (v : Ref κ ν)
+  | remA (t : Nat) (k : Ref κ κ)
+  | memA (t : Nat) (k : Ref κ κ)
+  | getA (t : Nat) (k : Ref κ κ)
+deriving Repr
+
+def stepA (cfg : Cfg) (hash : κ → Nat) (asKey : ν → Option κ) (asVal : κ → Option ν) (ts : List (Tab κ ν)) :
+    AOp κ ν → Except Fail (List (Tab κ ν) × Obs κ ν)
+  | .plain op => step cfg hash ts op
+  | .setA t kr vr =>
+    match ts[t]? with
+    | none => .ok (ts, .badOp)
+    | some tb =>
+      match kr.readKey hash asKey tb with
+      | .error f => .error f
+      | .ok rk =>
+        match vr.readVal hash asVal tb with
+        | .error f => .error f
+        | .ok rv =>
+          match setArgs rk rv with
+          | .error o => .ok (ts, o)
+          | .ok (k, v) => step cfg hash ts (.set t k v)
+  | .remA t kr =>
+    match ts[t]? with
+    | none => .ok (ts, .badOp)
+    | some tb =>
+      match kr.readKey hash asKey tb with
+      | .error f => .error f
+      | .ok rk =>
+        match keyArg1 rk with
+        | .error o => .ok (ts, o)
+        | .ok k => step cfg hash ts (.rem t k)
+  | .memA t kr =>
+    match ts[t]? with
+    | none => .ok (ts, .badOp)
+    | some tb =>
+      match kr.readKey hash asKey tb with
+      | .error f => .error f
+      | .ok rk =>
+        match keyArg1 rk with
+        | .error o => .ok (ts, o)
+        | .ok k => step cfg hash ts (.mem t k)
+  | .getA t kr =>      -- `Table_Get` looks at the address first: the whole function `getArg`
+    match ts[t]? with
+    | none => .ok (ts, .badOp)
+    | some tb =>
+      match kr.locate hash tb with
+      | .error f => .error f
+      | .ok none => .ok (ts, .badOp)
+      | .ok (some a) =>
+        match getArg cfg hash asKey tb a with
+        | .error f => .error f
+        | .ok o => .ok (ts, o)
+
+def runA (cfg : Cfg) (hash : κ → Nat) (asKey : ν → Option κ) (asVal : κ → Option ν) :
+    List (Tab κ ν) → List (AOp κ ν) → Except Fail (List (Tab κ ν) × List (Obs κ ν))
+  | ts, [] => .ok (ts, [])
+  | ts, op :: ops =>
+    match stepA cfg hash asKey asVal ts op with
+    | .error f => .error f
+    | .ok (ts', o) =>
+      match runA cfg hash asKey asVal ts' ops with
+      | .error f => .error f
+      | .ok (ts'', os) => .ok (ts'', o :: os)
+
+/-- what the MAP says such an argument holds: the key object stored for a bound `k` holds `k`, the value object of its
+    record holds what the map binds to `k`; nothing is stored for an unbound key -/
+def Ref.specKey (asKey : ν → Option κ) (m : Spec κ ν) : Ref κ κ → Option (Except Exc κ)
+  | .obj k => some (.ok k)
+  | .keyOf k =>
+    match Spec.get m k with
+    | none => none
+    | some _ => some (.ok k)
+  | .valOf k =>
+    match Spec.get m k with
+    | none => none
+    | some v =>
+      match asKey v with
+      | none => some (.error .ValueError)
+      | some k' => some (.ok k')
+
+def Ref.specVal (asVal : κ → Option ν) (m : Spec κ ν) : Ref κ ν → Option (Except Exc ν)
+  | .obj v => some (.ok v)
+  | .keyOf k =>
+    match Spec.get m k with
+    | none => none
+    | some _ =>
+      match asVal k with
+      | none => some (.error .ValueError)
+      | some v => some (.ok v)
+  | .valOf k =>
+    match Spec.get m k with
+    | none => none
+    | some v => some (.ok v)
+
+def specStepA (asKey : ν → Option κ) (asVal : κ → Option ν) (ms : List (Spec κ ν)) : AOp κ ν → List (Spec κ ν) × Obs κ ν
+  | .plain op => specStep ms op
+  | .setA t kr vr =>
+    match ms[t]? with
+    | none => (ms, .badOp)
+    | some m =>
+      match setArgs (kr.specKey asKey m) (vr.specVal asVal m) with
+      | .error o => (ms, o)
+      | .ok (k, v) => specStep ms (.set t k v)
+  | .remA t kr =>
+    match ms[t]? with
+    | none => (ms, .badOp)
+    | some m =>
+      match keyArg1 (kr.specKey asKey m) with
+      | .error o => (ms, o)
+      | .ok k => specStep ms (.rem t k)
+  | .memA t kr =>
+    match ms[t]? with
+    | none => (ms, .badOp)
+    | some m =>
+      match keyArg1 (kr.specKey asKey m) with
+      | .error o => (ms, o)
+      | .ok k => specStep ms (.mem t k)
+  | .getA t kr =>
+    match ms[t]? with
+    | none => (ms, .badOp)
+    | some m =>
+      match keyArg1 (kr.specKey asKey m) with
+      | .error o => (ms, o)
+      | .ok k => specStep ms (.get t k)
+
+def specRunA (asKey : ν → Option κ) (asVal : κ → Option ν) : List (Spec κ ν) → List (AOp κ ν) → List (Spec κ ν) × List (Obs κ ν)
+  | ms, [] => (ms, [])
+  | ms, op :: ops =>
+    let (ms', o) := specStepA asKey asVal ms op
+    let (ms'', os) := specRunA asKey asVal ms' ops
+    (ms'', o :: os)
+
 end Cello.Table
